@@ -3,4 +3,5 @@ POSTCONDITION PostCond
 CONSTANTS
   Seed = 2
   Multi = FALSE
+  Wide = FALSE
 CHECK_DEADLOCK FALSE
